@@ -1015,3 +1015,29 @@ def _strip_abs(t):
             return e.decl()(*[rec(c) for c in e.children()])
         return e
     return rec(t)
+
+# ------------------------------------------------------------------------------------------------ FPZ, FSZ at equal arguments (math/ffunctions.m: FPZ[x_, x_], FSZ[x_, x_])
+@obligation('C02.equal_arguments.FPZ_FSZ', fns=[(FF, 'FPZ'), (FF, 'FSZ')], replay=replay_multi([('FPZ', 2), ('FSZ', 2)]))
+def _(ctx):
+    """ensures for all x in [1e-6, 1e12] outside the window |x - 1/4| < 1e-8, on every path of FPZ(x, x) and FSZ(x, x):
+    FPZ(x,x) == -2x (fPS(x) + ln x)/(4x - 1),  FSZ(x,x) == 2x (1 - 4x + 2x fPS(x) + (1 - 2x) ln x)/(4x - 1)  (math/ffunctions.m) -- as an identity on the closed-form
+    path and within 1e-7 on every expansion path (large-argument series of FSZ: Barr-Zee enclosure of f_PS, contracts/c01_fps.py); callee f_PS by its contract"""
+    from contracts import c01_fps as FP
+    from gm2v.specs import ln as LN
+    x = ctx.real('x')
+    pre = [x >= Fr(1, 10**6), x <= 10**12, z3.Or(x - Fr(1, 4) >= Fr(1, 10**8), Fr(1, 4) - x >= Fr(1, 10**8))]
+    defs = {'FPZ': -2 * x * (FP.fPS(x) + LN(x)) / (4 * x - 1),
+            'FSZ': 2 * x * (1 - 4 * x + 2 * x * FP.fPS(x) + (1 - 2 * x) * LN(x)) / (4 * x - 1)}
+    for fn in ('FPZ', 'FSZ'):
+        it = Interp(ctx.w, mode='sym', assumptions=pre, stubs={'f_PS': FP.fps_stub, 'f_S': uf('f_S')})
+        ps = it.run_paths(lambda: it.call(fn, [x, x], file=FF))
+        ctx.merge_rules(it)
+        n = 0
+        for k, (s, r, e) in enumerate(ps):
+            if e is not None or r is None:
+                ctx.record('%s.path%d' % (fn, k), FAILED, 'B', 0, 'no value: %s' % e)
+                continue
+            n += 1
+            FP.prove_path_against_def(ctx, '%s.path%d@L%d' % (fn, k, getattr(s, 'ret_line', 0)), fn, x, list(s.pc), list(s.axioms), r, defs[fn], pre)
+            ctx.sides('%s.path%d' % (fn, k), s, pre)
+        ctx.record('%s.paths' % fn, PROVED if n >= 1 else FAILED, 'B', 0, '%d paths outside the 1/4 window' % n)
